@@ -69,6 +69,8 @@ class HeapFn(cxx2gal.LoopFn):
     def rec_name(self, q):
         q = norm_type(q)
         q = re.sub(r"^(struct|class)\s+", "", q)
+        if "::" in q and q not in self.tr.layouts and q.split("::")[-1] in self.tr.layouts:
+            return q.split("::")[-1]         # a nested class, named with its qualification
         return q
 
     def is_record(self, q):
@@ -352,10 +354,34 @@ class HeapFn(cxx2gal.LoopFn):
                 return self.obj_addr(cargs[0], lambda src: (
                     "(match hcells mem %s %d with None => Oob | Some cs_ => let pnew := HPtr (List.length mem) 0 in let mem := mem ++ [cs_] in "
                     "let evs := evs ++ [%s] in %s end)") % (src, ncells, ev, k("pnew")))
-            raise Unsupported("new %s with constructor arguments" % rec)
+            # new T(a, b, ...): the constructor's initialisers, read from the source, say which member gets which argument (or zero)
+            imap = self.tr.ctor_init_map(self.cfg["file"], rec, len(cargs))
+            flat = self.flat_types(rec)
+            names = [f for f, _ in self.tr.layouts[rec]]
+            if len(flat) != len(names):
+                raise Unsupported("new %s with constructor arguments: nested members" % rec)
+
+            def goargs(i, acc):
+                if i == len(cargs):
+                    cells = []
+                    for f, t in zip(names, flat):
+                        src = imap.get(f)
+                        if src is None or src == "zero":
+                            cells.append("VPtr HNull" if self.is_rec_ptr(t) else "VInt 0")
+                        else:
+                            cells.append(("VPtr %s" if self.is_rec_ptr(t) else "VInt %s") % acc[src])
+                    return "(let pnew := HPtr (List.length mem) 0 in let mem := mem ++ [[%s]] in let evs := evs ++ [%s] in %s)" % (
+                        "; ".join(cells), ev, k("pnew"))
+                return self.E(cargs[i], lambda v: goargs(i + 1, acc + [v]))
+            return goargs(0, [])
         if kd == "CXXDeleteExpr":
             if not self.cfg.get("delete_event"):
                 raise Unsupported("delete")
+            dq = norm_type(qual(inn[0]))
+            if self.rec_name(dq[:-1] if dq.endswith("*") else dq) not in self.tr.layouts:
+                if not self.cfg.get("delete_opaque_event"):
+                    raise Unsupported("delete of %s" % dq)
+                return self.E(inn[0], lambda p: "(let evs := evs ++ [%s] in %s)" % (self.cfg["delete_opaque_event"].format(p=p), k("0")))
             return self.E(inn[0], lambda p: "(let evs := evs ++ [%s] in %s)" % (self.cfg["delete_event"].format(p=p), k("0")))
         if kd == "CXXConstructExpr" and self.is_opaque_obj(qual(n)) and len(inn) == 1:
             return self.E(inn[0], k)         # SimpleString x = <text>: the same text
@@ -952,6 +978,65 @@ class HeapTranslator(cxx2coq.Translator):
         if not found:
             raise Unsupported("default constructor of %s not found" % rec)
         self._zero_ok = getattr(self, "_zero_ok", set()) | {rec}
+
+    def ctor_init_map(self, path, rec, nargs):
+        """the constructor of `rec` with nargs parameters (not the copy constructor): {member: index of the parameter it is initialised
+        with | "zero"}; anything else in an initialiser, or a body, is unsupported"""
+        key = (rec, nargs)
+        cache = self.__dict__.setdefault("_ctor_maps", {})
+        if key in cache:
+            return cache[key]
+        docs = list(cxx2coq.clang_docs(self.repo, path, rec))
+        ctors = []
+
+        def scan(d):
+            for c in d.get("inner", []) or []:
+                if c.get("kind") == "CXXRecordDecl":
+                    if c.get("name") == rec:
+                        ctors.extend(x for x in c.get("inner", []) if x.get("kind") == "CXXConstructorDecl")
+                    scan(c)
+        for d in docs:
+            if d.get("kind") == "CXXConstructorDecl" and d.get("name") == rec:
+                ctors.append(d)
+            if d.get("kind") == "CXXRecordDecl" and d.get("name") == rec:
+                ctors.extend(x for x in d.get("inner", []) if x.get("kind") == "CXXConstructorDecl")
+            scan(d)
+        found = None
+        for d in ctors:
+            params = [c for c in d.get("inner", []) if c.get("kind") == "ParmVarDecl"]
+            if len(params) != nargs or d.get("isImplicit") or not any(c.get("kind") == "CompoundStmt" for c in d.get("inner", [])):
+                continue
+            if nargs == 1 and rec in qual(params[0]) and "&" in qual(params[0]):
+                continue
+            ids = {p_.get("id"): i for i, p_ in enumerate(params)}
+            m = {}
+            for c in d.get("inner", []):
+                if c.get("kind") != "CXXCtorInitializer":
+                    continue
+                x = (c.get("inner") or [{}])[0]
+                while x.get("kind") in SKIP or x.get("kind") in CASTS:
+                    x = (x.get("inner") or [{}])[0]
+                fld = (c.get("anyInit") or {}).get("name")
+                if x.get("kind") == "DeclRefExpr" and (x.get("referencedDecl") or {}).get("id") in ids:
+                    m[fld] = ids[x["referencedDecl"]["id"]]
+                elif (x.get("kind") == "IntegerLiteral" and x.get("value") == "0") or (x.get("kind") == "CXXBoolLiteralExpr" and not x.get("value")) \
+                        or x.get("kind") in ("CXXNullPtrLiteralExpr", "GNUNullExpr"):
+                    m[fld] = "zero"
+                else:
+                    raise Unsupported("constructor of %s initialises %s with %s" % (rec, fld, x.get("kind")))
+            body = [c for c in d.get("inner", []) if c.get("kind") == "CompoundStmt"][0]
+            if body.get("inner"):
+                raise Unsupported("constructor of %s has a body" % rec)
+            if found is not None and found != m:
+                raise Unsupported("two constructors of %s with %d parameters" % (rec, nargs))
+            found = m
+        if found is None:
+            raise Unsupported("constructor of %s with %d parameters not found" % (rec, nargs))
+        missing = [f for f, _ in self.layouts[rec] if f not in found]
+        if missing:
+            raise Unsupported("constructor of %s leaves %s uninitialised" % (rec, ", ".join(missing)))
+        cache[key] = found
+        return found
 
     def function(self, cfg):
         docs = cxx2coq.clang_docs(self.repo, cfg["file"], cfg["name"])
